@@ -71,7 +71,7 @@ class C37(Prop):
         "no repository caller renames a profile through update_profile (auth_service.py / commands/auth.py only change tokens, api keys and device_oidc); name-changing updates are generated only for profiles of non-current environments, where the statement is unambiguous (another environment's profile operations must not change which profile is active in the current one); name-preserving updates are generated for profiles of any environment",
         "'picked while that environment was current' is read as 'since that environment last became current' - the reading under which the repository's own clear-on-switch mechanism is the thing being checked; under the weaker reading 'at any earlier time' the separate violation kind active_profile_never_picked_in_env applies",
     ]
-    budgets = {"quick": 1700, "thorough": 1700}
+    budgets = {"quick": 1800, "thorough": 1800}
     wall = {"quick": 55.0, "thorough": 420.0}
 
     # ------------------------------------------------------------------ setup
@@ -195,7 +195,7 @@ class C37(Prop):
         teardown = st.tuples(st.one_of(populate, populate_uneven), st.lists(st.one_of(sw, sw, select), min_size=0, max_size=2), st.lists(dele, min_size=2, max_size=3), churn).map(
             lambda t: (t[0] + t[1] + t[2] + t[3])[:30]
         )
-        return st.one_of(free, blocks, envheavy, teardown, populated, populated, fallback, relogin, renaming, renaming, renaming).map(lambda ops: [list(o) for o in ops])
+        return st.one_of(free, blocks, envheavy, teardown, populated, populated, fallback, relogin, relogin, renaming, renaming, renaming).map(lambda ops: [list(o) for o in ops])
 
     # ------------------------------------------------------------------ one case
 
